@@ -78,6 +78,9 @@
 //                                  TotalWeight{at_height: H}, Member{addr, at_height: H} for addr ∈ U
 //   bank=<addr>:<ucosm>:<uatom>,…  addr ∈ U      cw20=<addr>:<balance>,…  addr ∈ U
 //   allow=<owner>:<amount>,…       cw20 Allowance{owner, spender: flex}, owner ∈ pool
+//   gmlog=<addr>@<height>:<old|->,…   gtlog=<height>:<old|->,…     raw dumps of the group's MEMBERS / TOTAL snapshot
+//                                  changelogs (by address, then height): with them the observation determines the
+//                                  group state (model resynchronisation, Driver/Common)
 use crate::common::*;
 use cosmwasm_std::testing::MockApi;
 use cosmwasm_std::{
